@@ -5,12 +5,15 @@ CONSTANTS
   Initial <- InitialABC
   Kinds = {"add", "remove", "promote", "demote"}
   AccessArgs <- ArgsPlain
-  Replica = {}
+  Replica = {r1}
   MaxOps = 3
-  MaxRejected = 0
+  MaxRejected = 1
   Defect_TieBreakByPartialCmp = FALSE
   Defect_NoopModifyUnchecked = FALSE
   Defect_RecreateAccepted = FALSE
 INVARIANTS
-  ExportHistory
-CHECK_DEADLOCK FALSE
+  C33_OnlyAuthorized
+  C33_MembersHaveOrigin
+  C31_VerdictsAgree
+PROPERTIES
+  C33_RejectLeavesUnchanged
